@@ -847,3 +847,50 @@ def eval_c13(item):
     except Exception as e:  # noqa
         out["problems"].append({"kind": "compare-raises", "error": f"{type(e).__name__}: {e}", "tb": traceback.format_exc()[-1500:]})
     return out
+
+
+# ---------------------------------------------------------------------------------------------- C04 (static half): collected dependencies
+def expected_upstream(G):
+    """Tasks the root depends on directly: task-typed values (or outputs of tasks) reachable from its parameters, pre-tasks
+    and init tasks through non-task configurations."""
+    root = G["root"]
+    out, seen = set(), set()
+    stack = [root]
+    while stack:
+        l = stack.pop()
+        if l in seen:
+            continue
+        seen.add(l)
+        n = G["nodes"][l]
+        if l != root:
+            if "output_of" in n:
+                out.add(n["output_of"])
+                continue
+            if is_task(G, l):
+                out.add(l)
+                continue
+        for v in n["args"].values():
+            stack.extend(R.refs_in(v))
+        stack.extend(n.get("pre", []))
+        stack.extend(n.get("init", []))
+    return out
+
+
+def eval_deps(item):
+    G = item["G"]
+    root = G["root"]
+    if not (is_task(G, root) and not Gr.has_cycle(G)):
+        return {"skip": True}
+    try:
+        B = Gr.build(G)
+        Gr.seal_root(G, B)
+        job = B.tasks[root].__xpm__.job
+        got = set()
+        for dep in job.dependencies:
+            origin = dep.origin
+            lab = next((l for l, t in B.tasks.items() if t.__xpm__.job is origin), None)
+            got.add(lab or f"?{origin}")
+        want = expected_upstream(G)
+        return {"skip": False, "got": sorted(got), "want": sorted(want), "sig": sig_digest(G)}
+    except Exception as e:  # noqa
+        return {"skip": False, "error": f"{type(e).__name__}: {e}", "tb": traceback.format_exc()[-1200:], "sig": sig_digest(G)}
